@@ -13,7 +13,7 @@ from .. import crashsim
 LEVEL = "fault_enumeration"
 SHRINK = (40, 150.0)
 ISOLATE = False  # isolation is per configuration (the whole _config_task runs in a forked child)
-KINDS = ("reference", "die", "raise", "staging-off-named", "staging-off-unnamed", "concurrent")
+KINDS = ("reference", "die", "raise", "staging-off-named", "staging-off-unnamed", "concurrent", "ioerr", "retry")
 WHERE = ("boundary", "stage-edge", "interior", "anywhere", "inside-fits-writer")
 
 _REF = {}
@@ -125,6 +125,12 @@ def scn_case(ctx):
     src = _src()
     if kind == "concurrent":
         _concurrent_case(ctx, cfg, desc, clock)
+        return
+    if kind == "ioerr":
+        _ioerr_case(ctx, cfg, desc, clock, ref)
+        return
+    if kind == "retry":
+        _retry_case(ctx, cfg, desc, clock, ref)
         return
     if kind.startswith("staging-off"):
         named = kind.endswith("-named")
@@ -249,6 +255,100 @@ def scn_case(ctx):
         ctx.probes["other_files_left_after_failure"] += 1
 
 
+def _ioerr_case(ctx, cfg, desc, clock, ref):
+    """The disk refuses (ENOSPC) the j-th file the run opens for writing — a failure raised by
+    the stage's own store.  Afterwards the output file must still be a completed prefix
+    (k or k+1, as for any failure inside a stage), and every boundary the run goes on to
+    complete must show its own table."""
+    ch = ctx.ch
+    K = ref["K"]
+    j = 1 + ch.draw(max(1, K), "io_write_no")
+    fr = crashsim.fault_run(cfg, desc["rng_seed"], clock, _src(), {"kind": "ioerr", "write_no": j, "step": None})
+    rep = fr["report"]
+    io = rep.get("io")
+    ctx.steps += rep.get("steps", 0)
+    ctx.log(f"case ioerr write_no={j} -> fired={io} status={rep['status'][:50]} k_final={rep['k_final']} file={'absent' if fr['file'] is None else len(fr['file'])} mismatch={rep.get('boundary_mismatch')}")
+    if not io:
+        ctx.probes["fault_step_beyond_run"] += 1
+        return
+    ctx.faults["io_error_enospc"] += 1
+    ctx.nontrivial = True
+    if rep.get("boundary_mismatch"):
+        kk, diff = rep["boundary_mismatch"]
+        ctx.violate("c17.boundary_after_io_error", f"the {j}-th write was refused by the disk, the run went on, and after its stage boundary {kk} the file is not the table of the stages completed so far: {diff}", "ioerr:continued")
+        return
+    k = io["k"] if io["k"] is not None else 0
+    if rep["status"] == "returned":
+        ctx.probes["run_returned_despite_io_error"] += 1
+        diff = crashsim.describe_diff(fr["file"], fr["final"])
+        if diff:
+            ctx.violate("c17.boundary_after_io_error", f"the {j}-th write was refused by the disk, compute() returned, and the file differs from its final table: {diff}", "ioerr:returned")
+        return
+    allowed = [min(K, k), min(K, k + 1)]
+    diffs = [crashsim.describe_diff(fr["file"], ref["snaps"][kk]) for kk in allowed]
+    if all(diffs):
+        ctx.violate(
+            "c17.file_after_write_error",
+            f"the disk refused the {j}-th write (ENOSPC on {io['path']}) in stage {k + 1} of {K} and the run raised: the file left on disk is not the last completed prefix: {diffs[0]}",
+            "ioerr:raised",
+        )
+
+
+def _retry_case(ctx, cfg, desc, clock, ref):
+    """A staged run that fails in a stage, then — same process, same output path — a second,
+    fault-free staged run (a retry loop, a scan, a notebook): the second run's file must show
+    its own table at each of its boundaries."""
+    from .. import core
+
+    ch = ctx.ch
+    step = 1 + ch.draw(max(1, ref["steps"]), "retry_fail_step")
+    src = _src()
+    seed = desc["rng_seed"]
+
+    def body():
+        import tempfile, shutil
+
+        d = tempfile.mkdtemp(prefix="c17retry-")
+        try:
+            out = os.path.join(d, "out.fits")
+            os.mkdir(os.path.join(d, "side"))
+            cwd = os.getcwd()
+            os.chdir(d)
+            try:
+                st1, _, tr1 = crashsim._compute_call(cfg, seed, clock, out, True,
+                                                     lambda box: crashsim.StageTracer(src, box, out, fault={"kind": "raise", "step": step}))
+                st2, t2, tr2 = crashsim._compute_call(cfg, seed, clock, out, True,
+                                                      lambda box: crashsim.StageTracer(src, box, out, snapshot=True, side_dir=os.path.join(d, "side")))
+            finally:
+                os.chdir(cwd)
+            bad = None
+            for kk in range(1, tr2.k + 1):
+                dd = crashsim.describe_diff(tr2.snaps[kk], tr2.sides[kk]) if tr2.snaps[kk] != tr2.sides[kk] else None
+                if tr2.snaps[kk] is None:
+                    dd = "no file"
+                if dd:
+                    bad = [kk, dd]
+                    break
+            return {"st1": st1, "fired": tr1.fired, "st2": st2, "k2": tr2.k, "bad": bad, "steps": tr1.steps + tr2.steps}
+        finally:
+            shutil.rmtree(d, ignore_errors=True)
+
+    rep = core.in_fork(body)
+    ctx.steps += rep["steps"]
+    ctx.log(f"case retry fail_step={step} first={rep['st1'][:30]} fired={bool(rep['fired'])} second={rep['st2'][:30]} k2={rep['k2']} bad={rep['bad']}")
+    if not rep["fired"]:
+        ctx.probes["fault_step_beyond_run"] += 1
+    else:
+        ctx.faults["raise_then_retry"] += 1
+        ctx.nontrivial = True
+    if rep["st2"] != "returned":
+        ctx.violate("c17.retry_fails", f"after a staged run failed at step {step}, a second staged run to the same path raised {rep['st2']}", "retry")
+    elif rep["bad"]:
+        ctx.violate("c17.retry_boundary_content", f"after a staged run failed at step {step}, a second staged run to the same path: after its stage boundary {rep['bad'][0]} the file is not its table of completed stages: {rep['bad'][1]}", "retry")
+    elif rep["k2"] != ref["K"]:
+        ctx.violate("c17.retry_boundary_content", f"second staged run completed {rep['k2']} boundaries, a solo run {ref['K']}", "retry")
+
+
 def _concurrent_case(ctx, cfg, desc, clock):
     """Two or three staged runs interleaved in one process, same directory: every run's file
     must be, at each of its own stage boundaries, the table of its own stages completed so far."""
@@ -367,6 +467,10 @@ def _config_task_body(args):
             cases.append([1 + rnd.draw(2, "kind"), 4, rnd.draw(64, "fits_k"), rnd.draw(14000, "fits_line")])
         cases.append([3])
         cases.append([4])
+        for j in range(K):  # the disk refuses the j-th write: exhaustive over staged writes
+            cases.append([6, j])
+        for i in range(3 if tier == "quick" else 6):  # failed run, then a retry in the same process
+            cases.append([7, rnd.draw(10**6, "retry_step")])
         for i in range(4 if tier == "quick" else 8):  # concurrent staged runs, seeded interleavings
             cases.append([5] + [rnd.draw(6, "c") for _ in range(240)])
         for cv in cases:
